@@ -283,12 +283,66 @@ def edits(p):
             q["stages"][k]["split"] = True
             q["stages"][k]["chunks"] = {"k": "fixed", "c": 1}
             yield "make_splitting:" + st["name"], "semantic", q
+            # ... with a split section that declares no chunk parameters at all
+            q = copy.deepcopy(p)
+            q["stages"][k]["split"] = True
+            q["stages"][k]["chunks"] = {"k": "fixed", "c": 1}
+            q["stages"][k]["nochunkparams"] = True
+            yield "make_splitting_without_chunk_parameters:" + st["name"], "semantic", q
+        # the stage changes its name (its calls keep theirs through an alias) and at the same time
+        # what it is: it splits / it has another output
+        for lab in ("splits", "output"):
+            q = json.loads(json.dumps(p))
+            new = st["name"] + "_V2"
+            q["stages"][k]["name"] = new
+            if lab == "splits":
+                if st["split"]:
+                    continue
+                q["stages"][k]["split"] = True
+                q["stages"][k]["chunks"] = {"k": "fixed", "c": 1}
+            else:
+                q["stages"][k]["outs"].append({"n": "extra_out", "t": mro.T("int"), "outname": ""})
+                q["stages"][k]["rules"].append({"n": "extra_out", "r": mro.const(0)})
+            used = False
+            for pl in q["pipelines"]:
+                for c in pl["calls"]:
+                    if c["callee"] == st["name"]:
+                        c["callee"] = new
+                        used = True
+            if used:
+                yield "rename_behind_alias_and_change_%s:%s" % (lab, st["name"]), "semantic", q
         for oi, o in enumerate(st["outs"]):
             if o["t"] == mro.T("int"):
                 q = copy.deepcopy(p)
                 q["stages"][k]["outs"][oi]["t"] = mro.T("float")
                 yield "change_output_type:%s.%s" % (st["name"], o["n"]), "semantic", q
                 break
+    # a sub-pipeline changes its name (its calls keep theirs through an alias) and its body: a
+    # literal argument of one of its calls, or one of its return bindings
+    for i, pl in enumerate(p["pipelines"]):
+        callers = [(a, b) for a, pp in enumerate(p["pipelines"]) for b, c in enumerate(pp["calls"]) if c["callee"] == pl["name"]]
+        if not callers or pl["name"] == p["top"]["callee"]:
+            continue
+        q = json.loads(json.dumps(p))
+        new = pl["name"] + "_V2"
+        q["pipelines"][i]["name"] = new
+        for a, b in callers:
+            q["pipelines"][a]["calls"][b]["callee"] = new
+        changed = False
+        for c in q["pipelines"][i]["calls"]:
+            for b in c["binds"]:
+                if b["e"]["k"] == "lit" and isinstance(b["e"]["v"], int) and not isinstance(b["e"]["v"], bool):
+                    b["e"]["v"] += 1
+                    changed = True
+                    break
+            if changed:
+                break
+        if not changed and q["pipelines"][i]["calls"]:
+            c = q["pipelines"][i]["calls"][0]
+            c["local"] = not c.get("local")
+            changed = True
+        if changed:
+            yield "rename_pipeline_behind_alias_and_change_body:" + pl["name"], "semantic", q
     # the definition of a struct type that a parameter of the invocation's callables has:
     # a member is added, removed, or changes its type
     used = json.dumps([st["ins"] + st["outs"] for st in p["stages"]] + [pl["ins"] + pl["outs"] for pl in p["pipelines"]] +
